@@ -8,7 +8,7 @@ use std::sync::OnceLock;
 
 #[derive(Clone, Debug, PartialEq)]
 pub struct Spec {
-    pub outline: usize,    // 0 rectangle, 1 L, 2 triangle, 3 convex pentagon, 4 U
+    pub outline: usize,    // 0 rectangle, 1 L, 2 triangle, 3 convex pentagon, 4 U, 5 rectangle with a repeated corner
     pub height: f32,       // storey height
     pub storeys: usize,    // 1 | 2
     pub offset: (f32, f32),
@@ -19,13 +19,21 @@ pub struct Spec {
     pub poly_roof: bool,   // roof defined by its own polygon (tilt 30)
 }
 
-pub const OUTLINES: [&[(f32, f32)]; 5] = [
+pub const OUTLINES: [&[(f32, f32)]; 6] = [
     &[(0.0, 0.0), (10.0, 0.0), (10.0, 8.0), (0.0, 8.0)],
     &[(0.0, 0.0), (10.0, 0.0), (10.0, 4.0), (5.0, 4.0), (5.0, 9.0), (0.0, 9.0)],
     &[(0.0, 0.0), (9.0, 0.0), (2.0, 7.0)],
     &[(0.0, 0.0), (6.0, -1.0), (9.0, 3.0), (5.0, 8.0), (-1.0, 5.0)],
     &[(0.0, 0.0), (12.0, 0.0), (12.0, 8.0), (8.0, 8.0), (8.0, 3.0), (4.0, 3.0), (4.0, 8.0), (0.0, 8.0)],
+    // a rectangle whose second corner is written twice (HULC does write such outlines): the edge V2-V3 has no length
+    // and carries no wall, the walls on V3..V5 keep their numbers
+    &[(0.0, 0.0), (10.0, 0.0), (10.0, 0.0), (10.0, 8.0), (0.0, 8.0)],
 ];
+
+/// an edge of zero length carries no wall
+pub fn edge_is_degenerate(o: &[(f32, f32)], i: usize) -> bool {
+    o[i] == o[(i + 1) % o.len()]
+}
 
 pub const WIN: (f32, f32, f32, f32) = (1.5, 0.75, 2.0, 1.25); // x, y, width, height on the wall of edge V1
 
@@ -34,6 +42,8 @@ struct Template {
     suffix: String,
     kept_bdl: String,
 }
+
+pub const SECOND_SYSTEM_CONDITIONS: &str = "Consignas vivienda";
 
 fn template() -> &'static Template {
     static T: OnceLock<Template> = OnceLock::new();
@@ -56,7 +66,16 @@ fn template() -> &'static Template {
             }
         }
         let kept: Vec<&str> = lines.iter().enumerate().filter(|(i, _)| !dropped[*i]).map(|(_, l)| *l).collect();
-        Template { prefix: format!("{}<![CDATA[", &t[..a]), suffix: format!("]]>{}", &t[b..]), kept_bdl: kept.join("\n") }
+        // a second set-point definition under its own name (the upper storeys use it together with the loads "Residencial":
+        // the two kinds of conditions of a space need not share a name)
+        let mut extra = String::new();
+        if let Some(bl) = lx.blocks.iter().find(|b| b.btype == "SYSTEM-CONDITIONS") {
+            for l in &lines[bl.start..=bl.end] {
+                extra.push_str(&l.replace(&format!("\"{}\"", bl.name), &format!("\"{}\"", SECOND_SYSTEM_CONDITIONS)));
+                extra.push('\n');
+            }
+        }
+        Template { prefix: format!("{}<![CDATA[", &t[..a]), suffix: format!("]]>{}", &t[b..]), kept_bdl: format!("{}\n{}", kept.join("\n"), extra) }
     })
 }
 
@@ -88,7 +107,7 @@ pub fn geometry_bdl(s: &Spec) -> String {
         t.push_str("    ..\n");
         t.push_str(&format!("\"P{:02}\" = FLOOR\n    POLYGON = \"{}_Pol\"\n    Z = {}\n    FLOOR-HEIGHT = {}\n    SPACE-HEIGHT = {}\n    MULTIPLIER = 1\n    SHAPE = POLYGON\n    PREVIOUS = \"{}\"\n    ..\n", k + 1, sp, f(k as f32 * s.height), f(s.height), f(s.height), if k == 0 { "Ninguna".to_string() } else { format!("P{:02}", k) }));
         t.push_str(&format!(
-            "\"{}\" = SPACE\n    nCompleto = \"{}\"\n    HEIGHT = {}\n    SHAPE = POLYGON\n    POLYGON = \"{}_Pol\"\n    X = {}\n    Y = {}\n    Z = {}\n    AZIMUTH = {}\n    TYPE = CONDITIONED\n    SPACE-TYPE = \"Residencial\"\n    SYSTEM-CONDITIONS = \"Residencial\"\n    SPACE-CONDITIONS = \"Residencial\"\n    MULTIPLIER = 1\n    MULTIPLIED = 0\n    perteneceALaEnvolventeTermica = SI\n    POWER = 4.4\n    VEEI-OBJ = 7.000000\n    VEEI-REF = 10.000000\n    ..\n",
+            "\"{}\" = SPACE\n    nCompleto = \"{}\"\n    HEIGHT = {}\n    SHAPE = POLYGON\n    POLYGON = \"{}_Pol\"\n    X = {}\n    Y = {}\n    Z = {}\n    AZIMUTH = {}\n    TYPE = CONDITIONED\n    SPACE-TYPE = \"Residencial\"\n    SYSTEM-CONDITIONS = \"{}\"\n    SPACE-CONDITIONS = \"Residencial\"\n    MULTIPLIER = 1\n    MULTIPLIED = 0\n    perteneceALaEnvolventeTermica = SI\n    POWER = 4.4\n    VEEI-OBJ = 7.000000\n    VEEI-REF = 10.000000\n    ..\n",
             sp,
             sp,
             f(s.height),
@@ -96,9 +115,13 @@ pub fn geometry_bdl(s: &Spec) -> String {
             f(s.offset.0),
             f(s.offset.1),
             f(space_z(s) as f32),
-            f(s.space_az)
+            f(s.space_az),
+            if k == 0 { "Residencial" } else { SECOND_SYSTEM_CONDITIONS }
         ));
         for i in 0..o.len() {
+            if edge_is_degenerate(o, i) {
+                continue;
+            }
             let w = wall_name(k, i);
             t.push_str(&format!("\"{}\" = EXTERIOR-WALL\n    ABSORPTANCE = 0.6\n    CONSTRUCTION = \"Fachada por defecto D0.60\"\n    LOCATION = SPACE-V{}\n    ..\n", w, i + 1));
             cons(&mut t, "Fachada por defecto D0.60", "Fachada por defecto D");
@@ -235,6 +258,9 @@ pub fn reference(s: &Spec) -> Vec<RefWall> {
         let z0 = k as f64 * h + space_z(s);
         let sp = space_name(k);
         for i in 0..o.len() {
+            if edge_is_degenerate(o, i) {
+                continue;
+            }
             let (a, b) = (o[i], o[(i + 1) % o.len()]);
             let (a, b) = ((a.0 as f64, a.1 as f64), (b.0 as f64, b.1 as f64));
             let corners = vec![space_to_world(s, a, z0), space_to_world(s, b, z0), space_to_world(s, b, z0 + h), space_to_world(s, a, z0 + h)];
@@ -307,7 +333,7 @@ pub fn all_specs(tier: Tier) -> Vec<Spec> {
     let mut v = vec![];
     let devs: Vec<f32> = tier.pick(vec![0.0, 90.0, 290.0], vec![0.0, 90.0, 180.0, 290.0, 37.5]);
     let heights: Vec<f32> = tier.pick(vec![2.5], vec![2.5, 3.1]);
-    for outline in 0..5 {
+    for outline in 0..6 {
         for &height in &heights {
             for storeys in 1..=2 {
                 for offset in [(0.0, 0.0), (3.0, -2.0)] {
@@ -350,7 +376,7 @@ pub fn write_synthetic_dirs(root: &str, tier: Tier) {
             let mut kyg = String::from("###;Datos para Factor de Pérdidas\n");
             let mut tbl_e = vec![];
             for k in 0..s.storeys {
-                for e in 0..OUTLINES[s.outline].len() {
+                for e in (0..OUTLINES[s.outline].len()).filter(|e| !edge_is_degenerate(OUTLINES[s.outline], *e)) {
                     kyg += &format!("Muro;{};10.00;0.45;1.00;Fachada;S ;Fachada por defecto D\n", wall_name(k, e));
                 }
                 if k > 0 {
